@@ -323,6 +323,14 @@ _LG = ("module lg\n  integer :: ntrue\n  logical :: isfalse\ncontains\n  functio
 PROGRAMS["logical_like_names"] = (_LG, {"ntrue": _occ(_LG, "ntrue", set(range(14))), "isfalse": _occ(_LG, "isfalse", set(range(14)))})
 
 
+# names that also occur as the tail of a numeric literal (1d0, 2e5, 0.5e1_dp) or glued to a kind suffix
+_NUM = ("program numlit\n  integer, parameter :: dp = 8\n  real(dp) :: d0, e5\n  d0 = 1d0 + d0\n  e5 = 2e5*e5 - 1.d0 + 3.0e5\n"
+        "  d0 = 0.5e1_dp + real(e5, dp)\n  print *, d0, 1.0_dp, e5\nend program numlit\n")
+PROGRAMS["names_like_literal_tails"] = (_NUM, {
+    "d0": [(2, 14), (3, 2), (3, 13), (5, 2), (6, 11)],
+    "e5": [(2, 18), (4, 2), (4, 11), (5, 23), (6, 23)]})
+
+
 def native_references():
     from replay.harness import Workspace, session
     for pname, (text, expect) in PROGRAMS.items():
@@ -450,6 +458,47 @@ def native_keyword_argument():
         ws.close()
 
 
+def native_continued_literal():
+    """names inside a character literal that is continued over lines are not occurrences"""
+    from replay.harness import Workspace, session
+    text = "program p\n  integer :: x\n  x = 1\n  print *, \"abc x &\n     & x def\", x\nend program p\n"
+    ws = Workspace({"c.f90": text})
+    try:
+        uri = ws.uri("c.f90")
+        srv, out = session(ws, [
+            {"jsonrpc": "2.0", "method": "textDocument/didOpen", "params": {"textDocument": {"uri": uri}}},
+            {"jsonrpc": "2.0", "id": 1, "method": "textDocument/references",
+             "params": {"textDocument": {"uri": uri}, "position": {"line": 1, "character": 13}, "context": {"includeDeclaration": True}}}])
+        got = sorted((x["range"]["start"]["line"], x["range"]["start"]["character"])
+                     for m in out if m.get("id") == 1 for x in (m.get("result") or []))
+        want = [(1, 13), (2, 2), (4, 16)]
+        if got != want:
+            return {"source": text, "entity": "x", "expected": want, "returned": got}
+        return None
+    finally:
+        ws.close()
+
+
+def native_kind_suffix():
+    from replay.harness import Workspace, session
+    text = "program ks\n  integer, parameter :: dp = 8\n  real(dp) :: a\n  a = 1.0_dp + 0.5e1_dp\n  print *, a, 2_dp\nend program ks\n"
+    ws = Workspace({"k.f90": text})
+    try:
+        uri = ws.uri("k.f90")
+        srv, out = session(ws, [
+            {"jsonrpc": "2.0", "method": "textDocument/didOpen", "params": {"textDocument": {"uri": uri}}},
+            {"jsonrpc": "2.0", "id": 1, "method": "textDocument/references",
+             "params": {"textDocument": {"uri": uri}, "position": {"line": 1, "character": 24}, "context": {"includeDeclaration": True}}}])
+        got = sorted((x["range"]["start"]["line"], x["range"]["start"]["character"])
+                     for m in out if m.get("id") == 1 for x in (m.get("result") or []))
+        want = [(1, 24), (2, 7), (3, 10), (3, 22), (4, 16)]
+        if got != want:
+            return {"source": text, "entity": "the named constant dp", "expected": want, "returned": got}
+        return None
+    finally:
+        ws.close()
+
+
 def extra(repo, reg, tier, seed):
     items = regex_items(repo, tier) + structure_items(repo) + expand_name_items(repo, tier)
     w = native_references_multi()
@@ -477,6 +526,14 @@ def extra(repo, reg, tier, seed):
     items.append(Item("C06/session/native_references_keyword_argument", "refuted" if w else "bounded-ok", "native-run(bounded)", 0.0,
                       mode="bounded", witness=w, confirmed=True if w else None, func=f"{LS}.get_all_references",
                       detail="bounded: one program with an argument keyword spelled like a variable of the caller"))
+    w = native_kind_suffix()
+    items.append(Item("C06/session/native_references_kind_suffix", "refuted" if w else "bounded-ok", "native-run(bounded)", 0.0,
+                      mode="bounded", witness=w, confirmed=True if w else None, func=f"{LS}.get_all_references",
+                      detail="bounded: one program with a named kind constant used as the kind suffix of literals"))
+    w = native_continued_literal()
+    items.append(Item("C06/session/native_references_continued_literal", "refuted" if w else "bounded-ok", "native-run(bounded)", 0.0,
+                      mode="bounded", witness=w, confirmed=True if w else None, func=f"{LS}.get_all_references",
+                      detail="bounded: one program with a character literal continued over two lines that contains the name"))
     w = native_references()
     items.append(Item("C06/session/native_references", "refuted" if w else "bounded-ok", "native-run(bounded)", 0.0,
                       mode="bounded", witness=w, confirmed=True if w else None, func=f"{LS}.get_all_references",
